@@ -129,7 +129,7 @@ class Sort(Reordering):
                     f"{set(self.columns_required - current.target.columns)}",
                 ),
             )
-        if current.operation.is_order_dependent:
+        if current.operation.is_order_dependent or isinstance(current.operation, Reordering):
             return UnaryCommutator(
                 first=None,
                 second=current.operation,
